@@ -77,6 +77,7 @@ class World:
         self.odd = {"!str": "a string", "!none": None, "!int": 7, "!origin": sm.Origin(name="stray")}
         # ghost model
         self.V, self.o, self.d, self.succ, self.pred, self.lnk = [], {}, {}, {}, {}, {}
+        self.calls = 0
 
     def obj(self, key):
         if key in self.odd:
@@ -137,14 +138,19 @@ class World:
                 net.add_node(O(op[1]))
                 self.m_node(O(op[1]))
             elif k == "add_nodes":
-                net.add_nodes([O(x) for x in op[1]])
+                self.calls += 1
+                xs = [O(x) for x in op[1]]
+                net.add_nodes(xs if self.calls % 3 else (x for x in xs))  # (any iterable: every third call a generator)
                 for x in op[1]:
                     self.m_node(O(x))
             elif k == "add_link":
                 net.add_link(O(op[1]), O(op[2]), O(op[3]))
                 self.m_link(O(op[1]), O(op[2]), O(op[3]))
             elif k == "add_links":
-                net.add_links([(O(u), O(l), O(v)) for u, l, v in op[1]])
+                self.calls += 1
+                triples = [(O(u), O(l), O(v)) for u, l, v in op[1]]
+                # the argument is any iterable of triples: a list, a one-shot generator, a zip
+                net.add_links(triples if self.calls % 3 == 0 else (t for t in triples) if self.calls % 3 == 1 else zip(*zip(*triples)) if triples else iter(()))
                 for u, l, v in op[1]:
                     self.m_link(O(u), O(l), O(v))
             elif k == "add_links_bad":
